@@ -216,6 +216,9 @@ func openC08Db(w *wiring, dir string) (*c08Db, error) {
 	return c, nil
 }
 
+// waits that ran into their deadline in this run
+var c08Timeouts int
+
 // the number of asynchronous styles registered per (store, change)
 const c08AsyncStyles = 4
 
@@ -252,7 +255,11 @@ func (c *c08Db) drain() ([]string, int, int) {
 // await blocks until the asynchronous deliveries implied by the synchronously observed events and the
 // commit actions have arrived (cap 10 s), then leaves a short window for surplus deliveries
 func (c *c08Db) await(committed bool, nActions int) bool {
-	deadline := time.NewTimer(10 * time.Second)
+	limit := 10 * time.Second
+	if c08Timeouts > 0 {
+		limit = 100 * time.Millisecond // something is missing for good: do not stall the whole run
+	}
+	deadline := time.NewTimer(limit)
 	defer deadline.Stop()
 	ok := true
 	for {
@@ -280,6 +287,9 @@ func (c *c08Db) await(committed bool, nActions int) bool {
 			break
 		}
 	}
+	if !ok {
+		c08Timeouts++
+	}
 	// grace: goroutines spawned by the commit are already runnable
 	for k := 0; k < 4; k++ {
 		runtime.Gosched()
@@ -288,7 +298,8 @@ func (c *c08Db) await(committed bool, nActions int) bool {
 	return ok
 }
 
-// runTx executes one transaction (mode upd = Db.Update, bat = Db.Batch) and returns its observation
+// runTx executes one transaction (mode upd = Db.Update, bat = Db.Batch, swl = Db.Update with a caller
+// that swallows constraint vetoes and commits anyway) and returns its observation
 func (c *c08Db) runTx(t *hTx, mode string) *c08Seg {
 	h := c.h
 	h.mu.Lock()
@@ -306,10 +317,18 @@ func (c *c08Db) runTx(t *hTx, mode string) *c08Seg {
 		ctx = ctx.GetSystemContext()
 	}
 	nActions := 0
-	body := func(ctx boltz.MutateContext) error {
+	body := func(ctx boltz.MutateContext) (err error) {
 		// bbolt's Batch re-runs a failed function on its own: start from scratch
 		results = nil
 		nActions = 0
+		// a caller that swallowed a veto in the middle of a cascade works on a half-updated database;
+		// whatever boltz does then (also a nil dereference) only has to end in a rollback
+		defer func() {
+			if r := recover(); r != nil {
+				results = append(results, "PANIC")
+				err = fmt.Errorf("panic in the transaction body: %v", r)
+			}
+		}()
 		action := func() {
 			c.mu.Lock()
 			c.ca++
@@ -318,11 +337,26 @@ func (c *c08Db) runTx(t *hTx, mode string) *c08Seg {
 		}
 		ctx.AddCommitAction(action)
 		nActions++
+		// every transaction carries a pre-commit action; the failing one comes second
+		ctx.AddPreCommitAction(func(boltz.MutateContext) error { return nil })
 		if t.PreCommitErr {
 			ctx.AddPreCommitAction(func(boltz.MutateContext) error { return errors.New("pre-commit action failed") })
 		}
 		for i := range t.Ops {
+			h.mu.Lock()
+			raisedBefore := h.raised
+			h.mu.Unlock()
 			e := h.execOp(ctx, &t.Ops[i])
+			if e != nil && mode == "swl" {
+				// a caller that handles the veto of an entity constraint and carries on
+				h.mu.Lock()
+				vetoed := h.raised > raisedBefore
+				h.mu.Unlock()
+				if vetoed {
+					results = append(results, "swallowed")
+					continue
+				}
+			}
 			results = append(results, classify(e))
 			if e != nil {
 				return e
@@ -442,13 +476,14 @@ func runC08(o *opts) error {
 	defer impl.close()
 	tmp := o.get("tmp", os.TempDir())
 	stats := map[string]int{}
-	n, nb := 700, 50
+	n, nb, nsw := 2200, 120, 150
 	if o.thorough() {
-		n, nb = 9000, 1200
+		n, nb, nsw = 24000, 2000, 2000
 	}
 	if o.n > 0 {
 		n = o.n
 		nb = o.getInt("nbatch", o.n/12)
+		nsw = o.getInt("nswallow", o.n/12)
 	}
 	account := func(w *wiring, mode string, txs []hTx, obs string) {
 		stats["histories"]++
@@ -507,9 +542,15 @@ func runC08(o *opts) error {
 		return nil
 	}
 	r := newRng(o.seed)
-	for i := 0; i < n+nb; i++ {
+	for i := 0; i < n+nb+nsw; i++ {
+		if c08Timeouts >= 25 {
+			stats["aborted_after_timeouts"] = i
+			break
+		}
 		mode := "upd"
-		if i >= n {
+		if i >= n+nb {
+			mode = "swl"
+		} else if i >= n {
 			mode = "bat"
 		}
 		w := wiringByName(allWirings[i%len(allWirings)])
@@ -520,7 +561,11 @@ func runC08(o *opts) error {
 			if k >= nTx {
 				return nil
 			}
-			return g.genTx(facts)
+			t := g.genTx(facts)
+			if mode == "swl" && len(t.Vetoes) == 0 {
+				g.addVeto(t)
+			}
+			return t
 		}, mode, tmp)
 		if err != nil {
 			return err
@@ -530,6 +575,6 @@ func runC08(o *opts) error {
 		account(w, mode, txs, obs)
 	}
 	writeJSON(o.out, "stats.json", stats)
-	fmt.Fprintf(os.Stderr, "c08: %d histories (%d through Db.Batch)\n", n+nb, nb)
+	fmt.Fprintf(os.Stderr, "c08: %d histories (%d through Db.Batch, %d with swallowed vetoes)\n", n+nb+nsw, nb, nsw)
 	return nil
 }
